@@ -164,7 +164,7 @@ public:
         la.hdr = nullptr;   // P2M/L2P receive the *cell* header, not the particle-leaf header
         c.onP2M(&symb, si, sc, la, &leaf, sizeof(LeafClass));
         checked(c);
-        Inner::P2M(symb, idx, data, n, leaf);
+        { DeepScope deep; Inner::P2M(symb, idx, data, n, leaf); }
         end(c);
     }
 
@@ -182,7 +182,7 @@ public:
         ConstSnap cs;
         using ChildType = typename std::decay<decltype(lower[0].get())>::type;
         for (const void* p : ch) cs.add(p, sizeof(ChildType));
-        Inner::M2M(symb, level, lower, upper, pos, n);
+        { DeepScope deep; Inner::M2M(symb, level, lower, upper, pos, n); }
         cs.check(c, "M2M.const-children", "M2M");
         end(c);
     }
@@ -201,7 +201,7 @@ public:
         checked(c);
         ConstSnap cs;
         if (!sv.empty()) for (size_t k = 0, first = size_t(c.calls.size()) % sv.size(); k < 4 && k < sv.size(); ++k) cs.add(sv[(first + k) % sv.size()], sizeof(SrcType));   // a few of the (up to 316) sources
-        Inner::M2L(symb, level, srcs, pos, n, target);
+        { DeepScope deep; Inner::M2L(symb, level, srcs, pos, n, target); }
         cs.check(c, "M2L.const-sources", "M2L");
         end(c);
     }
@@ -219,7 +219,7 @@ public:
         checked(c);
         ConstSnap cs;
         cs.add(&upper, sizeof(CellClass));
-        Inner::L2L(symb, level, upper, lower, pos, n);
+        { DeepScope deep; Inner::L2L(symb, level, upper, lower, pos, n); }
         cs.check(c, "L2L.const-parent", "L2L");
         end(c);
     }
@@ -236,7 +236,7 @@ public:
         addRhs(la, rhs);
         c.onL2P(&symb, si, sc, &leaf, sizeof(LeafClass), la);
         checked(c);
-        Inner::L2P(symb, leaf, idx, data, rhs, n);
+        { DeepScope deep; Inner::L2P(symb, leaf, idx, data, rhs, n); }
         end(c);
     }
 
@@ -251,7 +251,7 @@ public:
         LeafArgs t = leafArgs(tgtHdr, tgtIdx, tgtData, nTgt); t.hdrNb = long(tgtHdr.nbParticles); addRhs(t, tgtRhs);
         c.onP2P(OP_P2P, s, t, code);
         checked(c);
-        Inner::P2P(srcHdr, srcIdx, srcData, srcRhs, nSrc, tgtHdr, tgtIdx, tgtData, tgtRhs, nTgt, code);
+        { DeepScope deep; Inner::P2P(srcHdr, srcIdx, srcData, srcRhs, nSrc, tgtHdr, tgtIdx, tgtData, tgtRhs, nTgt, code); }
         end(c);
     }
 
@@ -267,7 +267,7 @@ public:
         LeafArgs t = leafArgs(tgtHdr, tgtIdx, tgtData, nTgt); t.hdrNb = long(tgtHdr.nbParticles); addRhs(t, tgtRhs);
         c.onP2P(OP_P2PTSM, s, t, code);
         checked(c);
-        Inner::P2PTsm(srcHdr, srcIdx, srcData, nSrc, tgtHdr, tgtIdx, tgtData, tgtRhs, nTgt, code);
+        { DeepScope deep; Inner::P2PTsm(srcHdr, srcIdx, srcData, nSrc, tgtHdr, tgtIdx, tgtData, tgtRhs, nTgt, code); }
         end(c);
     }
 
@@ -280,7 +280,7 @@ public:
         LeafArgs l = leafArgs(hdr, idx, data, n); l.hdrNb = long(hdr.nbParticles); addRhs(l, rhs);
         c.onP2PInner(l);
         checked(c);
-        Inner::P2PInner(hdr, idx, data, rhs, n);
+        { DeepScope deep; Inner::P2PInner(hdr, idx, data, rhs, n); }
         end(c);
     }
 };
